@@ -395,6 +395,26 @@ def check_C02(ctx):
                 if e and kshown < 6:
                     kshown += 1
                     ctx.violation(f"[C02] a test that ended abnormally is not counted exactly once, in its own suite: {e}", f"# reporter: {r}\n" + s.text(), found_input=True, facts=dict(c02_facts(s, m), rep=r))
+    # through cgreen-runner: a library in which a test's process is killed, before and after a library that is all green - the runner's exit
+    # status says failure wherever the dying test's library stands on the command line
+    rimpl = build_impl(ctx, runner=True, tag="runner")
+    ldir = os.path.join(ctx.work, "c02libs"); os.makedirs(ldir)
+    open(os.path.join(ldir, "dying.c"), "w").write('#include <cgreen/cgreen.h>\n#include <signal.h>\n#include <unistd.h>\nEnsure(passes_then_is_killed) { assert_that(1, is_equal_to(1)); kill(getpid(), SIGKILL); }\nEnsure(healthy_neighbour) { assert_that(1, is_equal_to(1)); }\n')
+    open(os.path.join(ldir, "healthy.c"), "w").write('#include <cgreen/cgreen.h>\nEnsure(all_is_well) { assert_that(1, is_equal_to(1)); }\n')
+    for nm in ("dying", "healthy"):
+        r = sh(["gcc", "-shared", "-fPIC", "-w", f"-I{REPO}/include", os.path.join(ldir, nm + ".c"), "-o", os.path.join(ldir, f"lib{nm}_tests.so"), f"-L{rimpl['dir']}", "-lcgreen"])
+        if r.returncode != 0:
+            raise BuildError("test library: " + r.stdout[-1500:])
+    for args in (["libdying_tests.so"], ["libdying_tests.so", "libhealthy_tests.so"], ["libhealthy_tests.so", "libdying_tests.so"], ["libdying_tests.so", "libhealthy_tests.so", "libhealthy_tests.so"], ["-q", "libdying_tests.so", "libhealthy_tests.so"]):
+        e = dict(os.environ); e["LD_LIBRARY_PATH"] = rimpl["dir"]; e.pop("CGREEN_NO_FORK", None)
+        try:
+            rr = subprocess.run([rimpl["runner"]] + args, cwd=ldir, stdout=subprocess.PIPE, stderr=subprocess.PIPE, env=e, timeout=60); rc = rr.returncode
+        except subprocess.TimeoutExpired:
+            rc = "timeout"
+        if rc == 0 or rc == "timeout":
+            ctx.violation(f"[C02] cgreen-runner {' '.join(args)}: a test's process is killed (libdying_tests.so: passes_then_is_killed), the runner " + ("does not terminate" if rc == "timeout" else "exits with status 0"),
+                          "# libdying_tests.so: Ensure(passes_then_is_killed) { assert_that(1, is_equal_to(1)); kill(getpid(), SIGKILL); } and a healthy test; libhealthy_tests.so: one passing test\ncgreen-runner " + " ".join(args),
+                          found_input=True, facts={"runner_libraries": True})
     ctx.coverage["differential_pairs"] = len(sub)
     ctx.coverage["samples"] = sample_of(scens)
     ctx.coverage["evaluations"] = ctx.coverage["correspondence"]["cases"] + 2 * len(sub) + len(kobs)
@@ -2927,6 +2947,11 @@ def check_C12(ctx):
     for b in dbits:
         cases.append((f"retd {b:016x}", f"{b:016x}", None))
         cases.append((f"box {b:016x}", f"{b:016x}", None))
+    for _ in range(sizes(ctx, 60, 3000)):      # two boxes alive at once; two boxed arguments of one call
+        b1, b2 = rng.choice(dbits), rng.choice(dbits)
+        cases.append((f"box2 {b1:016x} {b2:016x}", f"{b1:016x} {b2:016x} {b1:016x} {b2:016x}", None))
+    for v in B[:8] + [rng.randrange(-2**63, 2**63) for _ in range(sizes(ctx, 20, 300))]:      # the return value of a call one of whose clauses names an absent parameter
+        cases.append((f"retu {v}", f"{v}", None))
     for size in list(range(1, sizes(ctx, 40, 65))) + [100, 257, 1000]:
         data = bytes(rng.randrange(256) for _ in range(size))
         cases.append((f"byval {size} {data.hex()}", " ".join([data.hex()] * 3), None))
@@ -2973,7 +2998,7 @@ def check_C12(ctx):
             if m != val:
                 ndis += 1
                 if ndis <= 3: ctx.oblige("correspondence C12 (capture / set contents)", False, f"`{line[:100]}`: model {m[:80]} impl {val[:80]}")
-        if val != want or fails != "0":
+        if val != want or fails != ("1" if line.startswith("retu ") else "0"):      # (`retu`: the clause naming an absent parameter is the one failure)
             nor += 1
             if nor <= 6:
                 ctx.violation(f"[C12] `{line[:100]}`: got {val[:120]} ({fails} failures), the value that went in is {want[:120]}", "# feed to harness/val_probe (ASan); `state <failures> <total_failures> <passes>` sets the reporter's counters as earlier tests leave them\n" + cur_state + "\n" + line, found_input=True,
